@@ -12,8 +12,9 @@ exit 2: HARNESS-ERROR (never reported as 0 and never as a violation)
 import os
 import sys
 
-if os.environ.get("PYTHONHASHSEED") != "0":
-    os.environ["PYTHONHASHSEED"] = "0"
+_HS = os.environ.get("VERIF_HASHSEED", "0")      # (selftest runs the batches under other hash seeds too)
+if os.environ.get("PYTHONHASHSEED") != _HS:
+    os.environ["PYTHONHASHSEED"] = _HS
     os.environ.setdefault("PYTHONDONTWRITEBYTECODE", "1")
     os.execv(sys.executable, [sys.executable] + sys.argv)
 
@@ -31,6 +32,7 @@ def main(argv):
     ap.add_argument("--replay", default=None)
     ap.add_argument("--quiet", action="store_true")
     ap.add_argument("--dump", action="store_true", help="with --replay: print the event log")
+    ap.add_argument("--digest-only", action="store_true", help="run the batch, print its digest, judge nothing")
     args, rest = ap.parse_known_args(argv)
     seed = int(os.environ.get("VERIF_SEED", "1") or "1")
     try:
@@ -74,6 +76,15 @@ def main(argv):
             return selftest.main(rest, seed, args.jobs)
         if not args.prop:
             ap.error("property id required")
+        if args.digest_only:
+            from sim import profiles
+            n = args.runs or 200
+            agg = engine.run_batch(args.prop, args.tier, seed, n, args.jobs)
+            if agg["errors"]:
+                print("HARNESS-ERROR %s" % agg["errors"][0][1])
+                return 2
+            print("DIGEST %s runs=%d" % (agg["digest"], agg["runs"]))
+            return 0
         return engine.check(args.prop, args.tier, seed, args.jobs, args.runs, args.quiet)
     except SystemExit:
         raise
